@@ -136,18 +136,17 @@ theorem dropTrail_nil_of_dropZeros_nil {fp : List Char} (h : dropZeros fp = []) 
     rw [this] at hxy
     exact t3 _ hxy
 
-/-- exponent of the leading significant digit of a lexeme without exponent part, from its trimmed mantissa -/
-theorem leadExp_decimal (l : Lex) (hwf : l.WF) (hex : l.ex = none)
+/-- exponent of the leading significant digit of a lexeme, from its trimmed mantissa -/
+theorem leadExp_lex (l : Lex) (hwf : l.WF)
     (hm : MantWF (dropZeros l.ip) (dropTrail '0' l.fp)) :
-    leadExp l.str = some (if (dropZeros l.ip).isEmpty then
+    leadExp l.str = some (l.expVal + (if (dropZeros l.ip).isEmpty then
         -(((dropTrail '0' l.fp).length - (dropZeros (dropTrail '0' l.fp)).length : Nat) : Int) - 1
-      else ((dropZeros l.ip).length : Int) - 1) := by
+      else ((dropZeros l.ip).length : Int) - 1)) := by
   unfold leadExp
   rw [parse_str l hwf]
-  have he : l.expVal = 0 := by simp [Lex.expVal, hex]
-  simp only [Option.bind_some, Parsed.leadExp, stripZeros_eq, he]
+  simp only [Option.bind_some, Parsed.leadExp, stripZeros_eq]
   cases hi : dropZeros l.ip with
-  | cons c t => simp
+  | cons c t => simp; omega
   | nil =>
     have hfne : dropTrail '0' l.fp ≠ [] := by
       rcases hm.nonempty with h | h
@@ -155,8 +154,16 @@ theorem leadExp_decimal (l : Lex) (hwf : l.WF) (hex : l.ex = none)
       · exact h
     have hdz : dropZeros l.fp ≠ [] := fun h => hfne (dropTrail_nil_of_dropZeros_nil h)
     have := leadZeros_dropTrail l.fp hfne
-    simp [nonempty_of_ne_nil hdz, this]
+    simp [nonempty_of_ne_nil hdz, this]; omega
 
+theorem leadExp_decimal (l : Lex) (hwf : l.WF) (hex : l.ex = none)
+    (hm : MantWF (dropZeros l.ip) (dropTrail '0' l.fp)) :
+    leadExp l.str = some (if (dropZeros l.ip).isEmpty then
+        -(((dropTrail '0' l.fp).length - (dropZeros (dropTrail '0' l.fp)).length : Nat) : Int) - 1
+      else ((dropZeros l.ip).length : Int) - 1) := by
+  rw [leadExp_lex l hwf hm]
+  have he : l.expVal = 0 := by simp [Lex.expVal, hex]
+  rw [he]; simp
 
 theorem numVal_zero : numVal ['0'] = some 0 := by
   have := numVal_str zeroLex zeroLex_wf
